@@ -145,12 +145,21 @@ impl<'a> OrderedHeaders<'a> {
         ensures (r matches Some(v) ==> huniq(*self, name@) == Some(v@)), (r is None ==> huniq(*self, name@) is None)
     { unimplemented!() }
 }
+/// every value the query carries under a name, in request order (uninterpreted view; OrderedQs::get_all is a binary search over
+/// the sorted pairs — trusted)
+pub uninterp spec fn qall(q: OrderedQs, name: Seq<char>) -> Seq<Seq<char>>;
 impl OrderedQs {
     #[verifier::external_body]
     pub fn get_unique(&self, name: &str) -> (r: Option<&str>)
         ensures (r matches Some(v) ==> quniq(*self, name@) == Some(v@)), (r is None ==> quniq(*self, name@) is None)
     { unimplemented!() }
+    /// the real return type is `impl Iterator<Item = &str>`; the shim names a concrete iterator type with vstd support
+    #[verifier::external_body]
+    pub fn get_all<'q>(&'q self, name: &str) -> (r: std::vec::IntoIter<&'q str>)
+        ensures qsviews(r.remaining()) == qall(*self, name@), r.obeys_prophetic_iter_laws(), r.decrease() is Some
+    { unimplemented!() }
 }
+pub open spec fn qsviews(v: Seq<&str>) -> Seq<Seq<char>> { v.map_values(|p: &str| p@) }
 pub open spec fn opt(o: Option<Seq<char>>) -> Seq<char> { match o { Some(s) => s, None => Seq::empty() } }
 
 //@@ extract T_Mode file=crates/s3s/src/sig_v2/methods.rs item="enum Mode" rewrites=attr
@@ -402,25 +411,33 @@ use time::OffsetDateTime;
 //@@ gen spec_included
 //@@ extractall included
 
-/// sub-resources of the canonicalized resource, in list order: `?`/`&` name [`=` value] for each listed name sent exactly once
+/// one listed sub-resource with the first k of its values: `?`/`&` name [`=` value] per value
+pub open spec fn subres_one(n: Seq<char>, vals: Seq<Seq<char>>, any_before: bool) -> Seq<char>
+    decreases vals.len()
+{
+    if vals.len() == 0 { Seq::empty() }
+    else {
+        let v = vals.last();
+        subres_one(n, vals.drop_last(), any_before)
+            + (if any_before || vals.len() > 1 { seq!['&'] } else { seq!['?'] }) + n + (if v.len() == 0 { Seq::empty() } else { seq!['='] + v })
+    }
+}
+/// sub-resources of the canonicalized resource, in list order: EVERY occurrence of every listed name the request carries — what is
+/// sent and selects the resource is signed (AWS: "if the request addresses a subresource … append the subresource, its value if
+/// it has one"); a name sent twice is two occurrences
 pub open spec fn subres(q: OrderedQs, names: Seq<&'static str>, any_before: bool) -> Seq<char>
     decreases names.len()
 {
     if names.len() == 0 { Seq::empty() }
     else {
         let rest = names.drop_last();
-        let head = subres(q, rest, any_before);
-        let n = names.last()@;
-        match quniq(q, n) {
-            None => head,
-            Some(v) => head + (if any_sent(q, rest) || any_before { seq!['&'] } else { seq!['?'] }) + n + (if v.len() == 0 { Seq::empty() } else { seq!['='] + v }),
-        }
+        subres(q, rest, any_before) + subres_one(names.last()@, qall(q, names.last()@), any_sent(q, rest) || any_before)
     }
 }
 pub open spec fn any_sent(q: OrderedQs, names: Seq<&'static str>) -> bool
     decreases names.len()
 {
-    if names.len() == 0 { false } else { any_sent(q, names.drop_last()) || quniq(q, names.last()@) is Some }
+    if names.len() == 0 { false } else { any_sent(q, names.drop_last()) || qall(q, names.last()@).len() > 0 }
 }
 
 fn v2_resource(ans0: String, virtual_host_bucket: Option<&str>, uri_path: &str, qs: Option<&OrderedQs>) -> (ret: String)
